@@ -428,6 +428,46 @@ fn run_miri(ctx: &mut Ctx) {
     ctx.rec.sample("miri", "every registered instruction once on a small rich state + 6 typed programs under the interpreter");
 }
 
+/// Long runs: a handful of never-ending but constant-size programs under step budgets of 70 000 to
+/// 300 000 (counters narrower than the budget wrap only there), through run(), in both profiles.
+fn long_runs(ctx: &mut Ctx) {
+    if ctx.is_fuzz() {
+        return;
+    }
+    use pushr::push::interpreter::PushInterpreter;
+    let (mut is, _names) = new_iset();
+    let i = |n: &str| SItem::Instr(n.to_string());
+    let progs: Vec<SItem> = vec![
+        SItem::List(vec![i("EXEC.Y"), SItem::List(vec![i("NOOP")])]),
+        SItem::List(vec![SItem::Int(0), SItem::Int(100_000_000), i("INDEX.DEFINE"), i("EXEC.LOOP"), SItem::List(vec![SItem::Int(1), i("INTEGER.+")])]),
+        SItem::List(vec![SItem::Int(100_000_000), i("INDEX.DEFINE"), i("EXEC.LOOP"), SItem::List(vec![i("INDEX.CURRENT"), i("INTEGER.POP"), SItem::Float(fb(0.5)), i("FLOAT.POP")])]),
+    ];
+    let mut case = 9_000_000u64;
+    for (pi, prog) in progs.iter().enumerate() {
+        for limit in [70_000i32, 131_073, 300_000] {
+            case += 1;
+            if !ctx.mine(case) {
+                continue;
+            }
+            let mut s = Snap::empty();
+            s.e = vec![prog.clone()];
+            s.cfg.eval_push_limit = limit;
+            s.cfg.eval_time_limit = 600_000;
+            s.cfg.growth_cap = 1000;
+            let mut st = build_state(&s);
+            ctx.rec.case_marker(case, &format!("long run {} under a budget of {} steps", prog, limit));
+            let r = guarded(|| PushInterpreter::run(&mut st, &mut is));
+            ctx.rec.count("programs", 1);
+            ctx.rec.count("long_runs", 1);
+            ctx.rec.count("steps", limit as u64);
+            if let Err(p) = r {
+                ctx.rec.violation("C01", &format!("run|panic|{}", panic_sig(&p)), &format!("{} ; program {} with eval_push_limit {}", p, prog, limit), "");
+            }
+            ctx.rec.cover(&format!("long|{}|{}", pi, limit));
+        }
+    }
+}
+
 pub fn run(ctx: &mut Ctx) {
     if ctx.mode == "miri" {
         run_miri(ctx);
@@ -447,6 +487,8 @@ pub fn run(ctx: &mut Ctx) {
             programs(ctx, Src::PushrGenerator);
             ctx.rec.checkpoint();
             programs(ctx, Src::Typed);
+            ctx.rec.checkpoint();
+            long_runs(ctx);
         }
     }
     ctx.rec.checkpoint();
